@@ -139,11 +139,16 @@ def install(E, probes=ASCII_PROBES):
                 return VStr(s)
             raise PyRaise(VExc("UnicodeDecodeError", VStr("'utf-8' codec can't decode"), origin="bytes.decode"))
         # some other (possibly unknown) codec: three outcomes, result unconstrained
-        E.use_assumption("E6: decode(b, cs) for cs != utf-8 raises UnicodeDecodeError or LookupError or returns an unconstrained str")
-        k = ctx.choose(3, "decode(other codec)")
+        E.use_assumption("E6: decode(b, cs) for cs != utf-8 returns an unconstrained str or raises UnicodeDecodeError, LookupError (unknown / non-text codec), "
+                         "a plain UnicodeError (the 'undefined' codec) or ValueError (NUL in the codec name)")
+        k = ctx.choose(5, "decode(other codec)")
         if k == 0:
             return VStr(ctx.fresh_str("decoded"))
         if k == 1:
             raise PyRaise(VExc("UnicodeDecodeError", VStr("codec can't decode"), origin="bytes.decode"))
-        raise PyRaise(VExc("LookupError", VStr("unknown encoding"), origin="bytes.decode"))
+        if k == 2:
+            raise PyRaise(VExc("LookupError", VStr("unknown encoding"), origin="bytes.decode"))
+        if k == 3:
+            raise PyRaise(VExc("UnicodeError", VStr("undefined encoding"), origin="bytes.decode"))
+        raise PyRaise(VExc("ValueError", VStr("embedded null character"), origin="bytes.decode"))
     M["codec.decode"] = decode
